@@ -42,7 +42,9 @@ fn run<D: KvDatabase + Clone>(name: &str, open: &dyn Fn() -> D, seed: u64) -> u6
     let mut history: Vec<String> = Vec::new();
     let mut checks = 0u64;
     // lifetime kinds: 0 = mixed traffic, 1 = ONLY a removal of the unit entry, 2 = only removals of ordinary keys, 3 = one put of the unit entry
-    let plan: Vec<u64> = vec![3, 1, 0, 1, 3, 0, 2, 0, 1];
+    // 4 = a key that was NEVER in the store is put in one batch and removed in a later batch of the same lifetime (both end up in
+    //     one physical batch of the backend)
+    let plan: Vec<u64> = vec![3, 1, 4, 0, 1, 3, 0, 4, 2, 0, 1];
     for (life, kind) in plan.iter().enumerate() {
         {
             let db = open();
@@ -51,13 +53,21 @@ fn run<D: KvDatabase + Clone>(name: &str, open: &dyn Fn() -> D, seed: u64) -> u6
             let map = engine.new_single_map::<Col, u64>();
             let umap = engine.new_single_map::<UnitCol, u64>();
             history.push(format!("[lifetime {life}]"));
-            let nb = if *kind == 0 { 1 + rng.next() % 4 } else { 1 };
+            let nb = if *kind == 0 { 1 + rng.next() % 4 } else if *kind == 4 { 3 } else { 1 };
+            let fresh_key = 1000 + life as u64;
             let mut batches = vec![];
             for b in 0..nb {
                 let mut wb = manager.new_write_batch();
                 match kind {
                     1 => { rt.block_on(umap.remove(&(), &mut wb)); unit = None; history.push("batch{remove unit}".into()); }
                     3 => { let v = 40 + life as u64; rt.block_on(umap.insert((), v, &mut wb)); unit = Some(v); history.push(format!("batch{{put unit={v}}}")); }
+                    4 => {
+                        match b {
+                            0 => { rt.block_on(map.insert(fresh_key, 10, &mut wb)); history.push(format!("batch{{put {fresh_key}=10 (key never in the store)}}")); }
+                            1 => { rt.block_on(map.insert(1, 5000 + life as u64, &mut wb)); model.insert(1, 5000 + life as u64); history.push("batch{put 1}".into()); }
+                            _ => { rt.block_on(map.remove(&fresh_key, &mut wb)); history.push(format!("batch{{remove {fresh_key}}}")); }
+                        }
+                    }
                     2 => { let k = rng.next() % 4; rt.block_on(map.remove(&k, &mut wb)); model.remove(&k); history.push(format!("batch{{remove {k}}}")); }
                     _ => {
                         let mut d = String::from("batch{");
@@ -91,6 +101,10 @@ fn run<D: KvDatabase + Clone>(name: &str, open: &dyn Fn() -> D, seed: u64) -> u6
         for k in 0..4u64 {
             let g = rt.block_on(map.get(&k)); checks += 1;
             if g != model.get(&k).cloned() { found(&format!("{name}: store content after the write manager was dropped and the store reopened (key {k})"), &hist(), &format!("{g:?}"), &format!("{:?}", model.get(&k))); }
+        }
+        for l in 0..plan.len() as u64 {
+            let g = rt.block_on(map.get(&(1000 + l))); checks += 1;
+            if g.is_some() { found(&format!("{name}: a key that was put and then removed by a later batch of the same manager lifetime is still in the store"), &hist(), &format!("get({}) = {g:?}", 1000 + l), "None"); }
         }
         let g = rt.block_on(umap.get(&())); checks += 1;
         if g != unit { found(&format!("{name}: store content after the write manager was dropped and the store reopened (unit-keyed column)"), &hist(), &format!("{g:?}"), &format!("{unit:?}")); }
